@@ -209,6 +209,14 @@ class GrammarRule(Rule):
     """A named grammar rule."""
 
 
+class SkipRule(Rule):
+    """The implicit rule an optimizer builds from `WHITESPACE` or `COMMENT`.
+
+    It is kept in the rule table under the name `SKIP`. A rule called `SKIP`
+    in a grammar is a `GrammarRule` like any other.
+    """
+
+
 class BuiltInRule(Rule):
     """The base class for all built-in rules."""
 
